@@ -97,7 +97,7 @@ func (scriptedSource) Latest(context.Context, string, uint64) (uint64, []byte, e
 	return 1 << 30, nil, nil
 }
 func (scriptedSource) Hash(context.Context, string, uint64) ([]byte, error) { return nil, nil }
-func (scriptedSource) NextURL() *jrpc2.URL                                { return jrpc2.MustURL("http://scripted") }
+func (scriptedSource) NextURL() *jrpc2.URL                                  { return jrpc2.MustURL("http://scripted") }
 
 // fakeDest is a Go-level destination: it walks everything Insert would read
 // and then uses the shared connection under the mutex it was given.
@@ -146,6 +146,7 @@ var plans = []plan{
 	{"blocks+receipts", false, []string{"tx_input", "tx_nonce", "block_hash", "tx_hash", "tx_status"}},
 	{"blocks+traces", false, []string{"tx_input", "block_num", "tx_hash", "trace_action_value", "trace_action_call_type"}},
 	{"logs-only", true, []string{"block_num", "tx_hash", "log_idx"}},
+	{"blocks-only", false, []string{"tx_input", "tx_hash", "block_hash", "tx_idx"}},
 }
 
 func (p plan) integration() config.Integration {
@@ -207,10 +208,12 @@ func scenarioLoad(r *rng, rounds int, cn *counters, alsoInsert bool) {
 			// its own destination: with batch size 1 and `conc` blocks all
 			// `conc` insert goroutines run (Converge itself never hands insert
 			// more than one batch)
+			// (real destinations here: dig.Integration.Insert shares the one
+			// connection of the step under the mutex Task.insert hands it)
 			tw, err := shovel.VerifRaceNewTask(
 				shovel.WithSource(scriptedSource{}),
 				shovel.WithConcurrency(conc, 1),
-				shovel.WithIntegrationFactory(func(config.Integration) (shovel.Destination, error) { return fakeDest{}, nil }),
+				shovel.WithIntegration(plans[len(plans)-1].integration()),
 			)
 			must(err)
 			nr, err = tw.VerifRaceInsert(context.Background(), &fakeConn{}, blocks[:conc])
@@ -287,8 +290,11 @@ func scenarioPipeline(r *rng, rounds int, cn *counters) {
 		var wg sync.WaitGroup
 		for ti := 0; ti < ntasks; ti++ {
 			p := plans[r.rng(0, len(plans)-1)]
-			if ti < 2 && round%2 == 0 { // make sure two tasks with different plans share header segments
+			switch {
+			case ti < 2 && round%2 == 0: // two tasks with different plans share header segments
 				p = plans[ti]
+			case ti < 2: // two tasks with the same blocks-only plan share full blocks (tx hash memo)
+				p = plans[len(plans)-1]
 			}
 			t, err := shovel.VerifRaceNewTask(
 				shovel.WithSource(c),
